@@ -351,10 +351,21 @@ def run(facts):
     # vtable identity tests: a decision that singles out the promotable representation must cover both parities alike
     from .flow import edge_conditions, first_effect_block
     n_tests = 0
-    for fb in facts.fn_bodies():
+
+    def identity_hits(fb):
         hits = {}
         for (s_, d_, c_, v_) in edge_conditions(fb, facts):
             cc = canon(c_)
+            # a flag that is `true` on one path and the result of a further comparison on another (`a == EVEN || a == ODD` spliced in
+            # from a predicate): taking the flag's true edge through that alternative means that comparison held
+            if isinstance(c_, tuple) and c_ and c_[0] == "phi" and len(c_) > 2 and v_[0] == "eq" and v_[1] == 1:
+                for alt in c_[1]:
+                    a_ = canon(alt)
+                    if isinstance(a_, tuple) and a_ and ((a_[0] == "call" and a_[1].rsplit("::", 1)[-1] == "eq") or (a_[0] == "bin" and a_[1] == "Eq")):
+                        sts = [y[1] for y in walk(a_) if y[0] == "static" and y[1] in (even[0], odd[0])]
+                        if len(sts) == 1:
+                            hits.setdefault(sts[0], []).append(first_effect_block(fb, d_))
+                continue
             st = [y[1] for y in walk(cc) if y[0] == "static" and y[1] in (even[0], odd[0])]
             if not st or v_[0] != "eq":
                 continue
@@ -372,10 +383,40 @@ def run(facts):
                 continue
             if v_[1] == sense:
                 hits.setdefault(st[0], []).append(first_effect_block(fb, d_))
+        return hits
+
+    from .inline import views, callers_of
+    todo = [(fb, fb, "") for fb in facts.fn_bodies()]
+    seen_keys = set()
+    while todo:
+        fb0, fb, via = todo.pop(0)
+        hits = identity_hits(fb)
+        if not hits and not via and fb0.kind in ("fn", "assoc_fn") and fb0.locals[0]["ty"] == "bool" and str(fb0.vis).startswith("Restricted"):
+            # a predicate that is nothing but one comparison (`fn is_promotable(&self) -> bool { eq(EVEN) }`)
+            re_ = return_expr(fb0, facts, inline=False)
+            if any(isinstance(y, tuple) and y and y[0] == "static" and y[1] in (even[0], odd[0]) for y in walk(re_)):
+                for cb in callers_of(facts, fb0.did):
+                    for ib in views(facts, cb):
+                        todo.append((cb, ib, " (through %s)" % fb0.id.rsplit("::", 1)[-1]))
+                        break
+            continue
         if not hits:
             continue
+        key = "%s|vtable identity test covers both parities" % fb0.id
+        if set(hits) != {even[0], odd[0]} and not via and str(fb0.vis).startswith("Restricted") and fb0.kind in ("fn", "assoc_fn") \
+                and fb0.locals[0]["ty"] == "bool" and callers_of(facts, fb0.did):
+            # a private predicate (`fn is_promotable(&self) -> bool { eq(EVEN) || eq(ODD) }`): its last test is its result, not a branch.
+            # The decision is taken where the predicate is used: judge every caller with the predicate spliced in.
+            for cb in callers_of(facts, fb0.did):
+                for ib in views(facts, cb):
+                    todo.append((cb, ib, " (through %s)" % fb0.id.rsplit("::", 1)[-1]))
+                    break
+            continue
+        if key in seen_keys:
+            continue
+        seen_keys.add(key)
         n_tests += 1
-        key = "%s|vtable identity test covers both parities" % fb.id
+        fb = fb0
         if set(hits) != {even[0], odd[0]}:
             res.bad(key, fb.loc(), "the handle is compared with %s only: behaviour differs between even and odd allocation addresses" % sorted(hits))
         elif sorted(set(hits[even[0]])) != sorted(set(hits[odd[0]])):
